@@ -506,3 +506,18 @@ m("x7-read-obj-ignores-error", "C04", BY, "        self.read_slice(result.as_mut
   "        let _ = self.read_slice(result.as_mut_slice(), addr);\n        Ok(result)", "R4.5.read_obj")
 m("x7-region-store-question-offset", "C03", MM, "        self.as_volatile_slice().and_then(|s| {\n            s.store(val, addr.raw_value() as usize, order)\n                .map_err(Into::into)\n        })",
   "        let s = self.as_volatile_slice()?;\n        s.store(val, (addr.raw_value() as usize) & !7, order)\n            .map_err(Into::into)", "R3.5.region_forwarder")
+
+# Bytes::read of a slice spelt as `match buf.len()` (accepted since refactor round 5), each with one defect
+_RD_ORIG = """    fn read(&self, mut buf: &mut [u8], addr: usize) -> Result<usize> {
+        if buf.is_empty() {
+            return Ok(0);
+        }
+
+        if addr >= self.size {
+            return Err(Error::OutOfBounds { addr });
+        }
+"""
+_RD_HEAD = "    fn read(&self, mut buf: &mut [u8], addr: usize) -> Result<usize> {\n"
+m("x7-match-len-bound-first", "C18", VM, _RD_ORIG, _RD_HEAD + "        match buf.len() {\n            _ if addr >= self.size => return Err(Error::OutOfBounds { addr }),\n            0 => return Ok(0),\n            _ => {}\n        }\n", "?")
+m("x7-match-len-strict-bound", "C04", VM, _RD_ORIG, _RD_HEAD + "        match buf.len() {\n            0 => return Ok(0),\n            _ if addr > self.size => return Err(Error::OutOfBounds { addr }),\n            _ => {}\n        }\n", "?")
+m("x7-match-len-one-is-empty", "C18,C04", VM, _RD_ORIG, _RD_HEAD + "        match buf.len() {\n            0 | 1 => return Ok(0),\n            _ if addr >= self.size => return Err(Error::OutOfBounds { addr }),\n            _ => {}\n        }\n", "?")
